@@ -47,7 +47,7 @@ func coreC06(tier string) []RunSpec {
 		out = append(out, RunSpec{Profile: "core:racing-shared-outputs", Params: map[string]int{"rr": 2, "k": k}})
 		out = append(out, RunSpec{Profile: "core:racing-melts-shared-inputs", Params: map[string]int{"rr": 3, "k": k}})
 	}
-	for sk := 0; sk < 7; sk++ {
+	for sk := 0; sk < 10; sk++ {
 		for k := 0; k < 2; k++ {
 			out = append(out, RunSpec{Profile: "core:semantic-invalid", Params: map[string]int{"sem": 1, "sk": sk, "k": k}})
 		}
@@ -689,7 +689,7 @@ func c06SemanticInvalid(rc *RunCtx, m *MW, snapshot func() string, i int) {
 	W, T := rc.W, rc.T
 	kind := rc.P("sk", -1)
 	if kind < 0 {
-		kind = T.Choose("sem.kind", 7)
+		kind = T.Choose("sem.kind", 10)
 	}
 	ks := W.ActiveKeyset("A")
 	a := NewActor(W, fmt.Sprintf("s%d.sem", i))
@@ -832,6 +832,52 @@ func c06SemanticInvalid(rc *RunCtx, m *MW, snapshot func() string, i int) {
 				m.Spent["A"] = append(m.Spent["A"], ins...)
 				m.User.Purse["A"] = append(m.User.Purse["A"], W.Unblind("A", exact, sigs)...)
 			}
+		case 7: // a second melt quote for an invoice that already has one; corrected: a fresh invoice
+			inv := W.LN.NewExternalInvoice(21 * 1000)
+			if q, _ := a.ReqMeltQuote("A", inv.Bolt11, 0); q == nil {
+				ok = false
+				return
+			}
+			inv2 := W.LN.NewExternalInvoice(22 * 1000)
+			bad = func() *Resp {
+				return a.Post("A", "/v1/melt/quote/bolt11", map[string]any{"request": inv.Bolt11, "unit": "sat"})
+			}
+			good = func() *Resp {
+				return a.Post("A", "/v1/melt/quote/bolt11", map[string]any{"request": inv2.Bolt11, "unit": "sat"})
+			}
+			after = func(r *Resp) {}
+		case 8: // melt quote above the configured melt maximum; corrected: exactly the maximum
+			max := W.Mints["A"].Cfg.Limits.MeltingSettings.MaxAmount
+			if max == 0 {
+				ok = false
+				return
+			}
+			over := W.LN.NewExternalInvoice((max + 1) * 1000)
+			at := W.LN.NewExternalInvoice(max * 1000)
+			bad = func() *Resp {
+				return a.Post("A", "/v1/melt/quote/bolt11", map[string]any{"request": over.Bolt11, "unit": "sat"})
+			}
+			good = func() *Resp {
+				return a.Post("A", "/v1/melt/quote/bolt11", map[string]any{"request": at.Bolt11, "unit": "sat"})
+			}
+			after = func(r *Resp) {}
+		case 9: // mint quote above the configured mint maximum, or in another unit; corrected: the maximum, in sat
+			max := W.Mints["A"].Cfg.Limits.MintingSettings.MaxAmount
+			if max == 0 {
+				ok = false
+				return
+			}
+			variant := T.Choose("sem.mq", 2)
+			bad = func() *Resp {
+				if variant == 1 {
+					return a.Post("A", "/v1/mint/quote/bolt11", map[string]any{"amount": 5, "unit": "usd"})
+				}
+				return a.Post("A", "/v1/mint/quote/bolt11", map[string]any{"amount": max + 1, "unit": "sat"})
+			}
+			good = func() *Resp {
+				return a.Post("A", "/v1/mint/quote/bolt11", map[string]any{"amount": max, "unit": "sat"})
+			}
+			after = func(r *Resp) {}
 		case 5: // swap with one forged input next to valid ones; corrected: only the valid ones
 			ins := m.pickProofs("A", 2)
 			f := m.feeFor("A", ins)
@@ -869,12 +915,17 @@ func c06SemanticInvalid(rc *RunCtx, m *MW, snapshot func() string, i int) {
 		return r
 	}
 	before := snapshot()
+	panicsBefore := len(W.Net.Panics)
 	r := run("sembad", bad)
 	rc.S.Probe(fmt.Sprintf("c06_semantic_invalid_%d", kind))
+	fp := fmt.Sprintf("semantic|%d", kind)
+	if len(W.Net.Panics) > panicsBefore {
+		W.Book.Violate("C06.panic", fp, "semantically invalid request (kind %d) made the handler panic: %s", kind, cut(W.Net.Panics[len(W.Net.Panics)-1], 300))
+		return
+	}
 	if r == nil || r.Err != nil {
 		return
 	}
-	fp := fmt.Sprintf("semantic|%d", kind)
 	if r.OK() {
 		// accepting it is another property's business (C02/C04/C12), not C06's
 		rc.S.Probe("c06_semantic_invalid_accepted")
@@ -1157,7 +1208,11 @@ func c06URLMutants(rc *RunCtx, m *MW, snapshot func() string, i int) {
 func runC06(rc *RunCtx) {
 	T := rc.T
 	fee := []uint{0, 100}[T.Choose("cfg.fee", 2)]
-	rc.NewMintWorld(LNConfig{FeePolicy: T.Choose("cfg.feepol", 3)}, MintOpts{Fee: fee})
+	opts := MintOpts{Fee: fee}
+	// generous per-quote limits (no request of the ordinary traffic comes near them)
+	opts.Limits.MintingSettings.MaxAmount = 6000
+	opts.Limits.MeltingSettings.MaxAmount = 5000
+	rc.NewMintWorld(LNConfig{FeePolicy: T.Choose("cfg.feepol", 3)}, opts)
 	W := rc.W
 	m := NewMW(rc, "A")
 	m.Strict = true
@@ -1358,5 +1413,9 @@ func runC06(rc *RunCtx) {
 			m.afterMelt("A", lq, ins, r)
 		}
 	})
+	// whatever else happened in this run: no request made a handler panic
+	if n := len(W.Net.Panics); n > 0 && !W.Book.HasViolation("C06.panic") {
+		W.Book.Violate("C06.panic", "any", "%d handler panic(s) in this run, last: %s", n, cut(W.Net.Panics[n-1], 300))
+	}
 	m.Finale()
 }
